@@ -120,6 +120,18 @@ def check_container_items_encoded(ctx):
                     for a in e.args:
                         if isinstance(a, ast.Name):
                             todo += [p for k, p in sp.sources(a, sp.where.get(id(e)) or r) if k == "expr"]
+                if isinstance(e, (ast.List, ast.Dict)) and not getattr(e, "elts", None) and not getattr(e, "keys", None):
+                    # an accumulator filled in a loop: what is appended / stored into it
+                    for m in sp.g.nodes:
+                        if m not in sp.nodes:
+                            continue
+                        if m.kind == "call" and isinstance(m.ast.func, ast.Attribute) and m.ast.func.attr in ("append", "add", "extend", "update", "insert") \
+                                and isinstance(m.ast.func.value, ast.Name) and any(p is e for k, p in sp.sources(m.ast.func.value, m)):
+                            todo += list(m.ast.args)
+                        if m.kind == "assign" and isinstance(m.ast, ast.Assign):
+                            for t in m.ast.targets:
+                                if isinstance(t, ast.Subscript) and isinstance(t.value, ast.Name) and any(p is e for k, p in sp.sources(t.value, m)):
+                                    todo += [t.slice, m.ast.value]
             for attr in attrs:
                 hit = False
                 for e in leaves:
@@ -352,7 +364,16 @@ def check(ctx):
     set_value = model.method("Config", "_set_value")
     sv_nodes = [n for n in g.nodes if set_value in an.callees(lt, n)]
     dec = {n for n in g.nodes if any(e[0] == "CODEC" and e[2] == "to_python" for e in calls.direct(lt, n))}
-    ctx.need(bool(sv_nodes) and bool(dec), "load_tree no longer decodes and stores: vanished anchor")
+    indirect = [n for n in g.nodes if n not in sv_nodes and any(
+        c.cls is not None and c.cls.name == "Config" and c.name in ("__setitem__", "__setattr__") for c in an.callees(lt, n))]
+    for n in indirect:
+        ctx.ob("load.key-verbatim", lt, n.ast if n.ast is not None else n.stmt, False,
+               "load_tree stores through Config.%s, which re-interprets the key (a '.' in a document key becomes a path): the tree "
+               "written by to_tree is not what is read back" % [c.name for c in an.callees(lt, n) if c.name in ("__setitem__", "__setattr__")][0], node=n)
+    if indirect and not sv_nodes:
+        sv_nodes = []
+    else:
+        ctx.need(bool(sv_nodes) and bool(dec), "load_tree no longer decodes and stores: vanished anchor")
     Field = model.cls("Field")
     for svn in sv_nodes:
         # a call reached only for members that are not Fields (sub-configurations) has nothing to decode
